@@ -60,6 +60,9 @@ Check eq_refl : same_modulo_received = fun h h' => Forall2 (fun a b => unstamp a
 Check eq_refl : unstamp = fun e => match e with SMarket i _ m => EMarket i m | SFill f => EFill f end.
 Check eq_refl : srun = fun h => erun (map unstamp h).
 
+Check C15_restore_invariant : forall h, perun h = srun (drop_restores h).
+Check eq_refl : pestep = fun s p => match p with PEv e => estep s (unstamp e) | PRestoreI _ => s end.
+
 (* the definitions the statements rest on *)
 Check eq_refl : tracks = fun h =>
   match is_pos (irun h), g_ref (grun h) with
@@ -119,25 +122,29 @@ Definition st (fee pnl_u : Q) (priced : bool) :=
 Check eq_refl : eevent_of (OMarket 3 777 (OMTrade 20 (Some 104))) = unstamp (SMarket 3 777 (mevent_of (OMTrade 20 (Some 104)))).
 (* buy 2 @ 100 without fee, then a public trade at 110: the estimate is 2*110 - 2*100 = 20 *)
 Check eq_refl : judge (CEngine (spots 2) (evs 0) [ (st 0 0 false, None); (st 0 20 true, None) ]%list
-                               [ st 0 20 true; flat ]%list true) = 0%N.
+                               [ st 0 20 true; flat ]%list okf) = 0%N.
 (* the market event did not refresh the estimate (pre-fix behaviour of d9de16e): rejected *)
 Check eq_refl : judge (CEngine (spots 2) (evs 0) [ (st 0 0 false, None); (st 0 0 true, None) ]%list
-                               [ st 0 0 true; flat ]%list true) = 2%N.
+                               [ st 0 0 true; flat ]%list okf) = 2%N.
 (* opening fill with fee 1: the stored 0 right after the fill is the known class, the refreshed
    value 20 - 1 = 19 is fine *)
 Check eq_refl : judge (CEngine (spots 2) (evs 1) [ (st 1 0 false, None); (st 1 19 true, None) ]%list
-                               [ st 1 19 true; flat ]%list true) = 101%N.
+                               [ st 1 19 true; flat ]%list okf) = 101%N.
 (* the same observations on a perpetual with contract size 0.001 settled in another asset: same
    verdict - kind and contract size are not read *)
 Check eq_refl : judge (CEngine [mkInst 1 (1 # 1000) false 1; mkInst 0 1 true 0]%list (evs 0)
                                [ (st 0 0 false, None); (st 0 20 true, None) ]%list
-                               [ st 0 20 true; flat ]%list true) = 0%N.
+                               [ st 0 20 true; flat ]%list okf) = 0%N.
+(* a persist / restore round trip that changed an instrument state: rejected, also when the only
+   other failures are in the known class *)
+Check eq_refl : judge (CEngine (spots 2) (evs 1) [ (st 1 0 false, None); (st 1 19 true, None) ]%list
+                               [ st 1 19 true; flat ]%list (mkFlags true (1%N :: nil) false)) = 2%N.
 (* ... but a stale value after the market event is not excused by the known class *)
 Check eq_refl : judge (CEngine (spots 2) (evs 1) [ (st 1 0 false, None); (st 1 0 true, None) ]%list
-                               [ st 1 0 true; flat ]%list true) = 2%N.
+                               [ st 1 0 true; flat ]%list okf) = 2%N.
 (* ... nor is a non-zero wrong value on the fresh position *)
 Check eq_refl : judge (CEngine (spots 2) (evs 1) [ (st 1 5 false, None); (st 1 19 true, None) ]%list
-                               [ st 1 19 true; flat ]%list true) = 2%N.
+                               [ st 1 19 true; flat ]%list okf) = 2%N.
 End PinCorr.
 
 (* the oracle accepts what the model itself produces on a history with two instruments, both price
@@ -156,6 +163,6 @@ Definition evs := [ OFill (mkOF 1 0 10 Buy 100 2 1);
     OMarket 0 40 (OMOther 50);
     OFill (mkOF 3 0 60 Sell 108 5 2);
     OMarket 0 99 (OMOther 70) ]%list.
-Check eq_refl : oracle_accepts_model (CEngine (spots 2) evs [] [] true) = true.
-Check eq_refl : verdicts (model_case (CEngine (spots 2) evs [] [] true)) = [1; 0; 0; 0; 0; 0; 0; 1; 0]%N.
+Check eq_refl : oracle_accepts_model (CEngine (spots 2) evs [] [] okf) = true.
+Check eq_refl : verdicts (model_case (CEngine (spots 2) evs [] [] okf)) = [1; 0; 0; 0; 0; 0; 0; 1; 0]%N.
 End PinSelf.
